@@ -263,7 +263,16 @@ G7in ==
     dup(<<"p2pkh", "p2pkh">>, <<1, 1>>, outsF, chF, <<B(550509), B(550509)>>, "dup-in-fund-nonsegwit"),
     dup(<<"p2pkh", "p2pkh">>, <<1, 1>>, outsW, <<>>, <<B(50009), B(50009)>>, "dup-in-nonsegwit"),
     dup(<<"p2wpkh", "p2wpkh">>, <<1, 1>>, outsW, <<>>, <<B(5000000), B(5000000)>>, "dup-in-overpay") }
-G7 == G7rep \cup G7fund \cup G7in
+\* two channels of EQUAL value funded at once; and the same with the outpoints crossed (each channel's
+\* outpoint is the output carrying the OTHER channel's funding script)
+G7twin ==
+  UNION {
+    StepsOf("G7", Skel(PU, <<"p2wpkh">>,
+                       <<OutS("F", ChanVal, 1), OutS("F", ChanVal, 2), OutS("W", B(300017), 9)>>,
+                       <<Chan(ChanVal, TRUE, Big0, "active", a[1]), Chan(ChanVal, TRUE, Big0, cm, a[2])>>,
+                       TRUE, TRUE), {FS("one")}, TRUE)
+    : a \in {<<1, 2>>, <<2, 1>>}, cm \in {"active", "none"}}
+G7 == G7rep \cup G7fund \cup G7in \cup G7twin
 
 Stateless(T) == G1(T) \cup G2(T) \cup G3(T) \cup G4 \cup G5 \cup G7
 
